@@ -295,6 +295,10 @@ func vCleanupTempDirs() {
 func vFSFailAt(n int)  { panic(vAssumeFailed{"fault injection is only available in the file-system model"}) }
 func vFSCrashAt(n int) { panic(vAssumeFailed{"crash points are only available in the file-system model"}) }
 func vFSOps() int      { return 0 }
+
+// vFSSched makes file-system calls scheduling points under gosymex (1: name-space operations, 2: reads and
+// writes too); natively the operating system pre-empts wherever it likes.
+func vFSSched(level int) {}
 func vFSExists(path string) bool {
 	_, err := os.Stat(path)
 	return err == nil
